@@ -792,7 +792,8 @@ func (rw *rewriter) ifChain(st *ast.IfStmt, acc *[]access) {
 }
 
 // mapRange turns `for k, v := range M { body }` into
-// `for zzit := zzverifrt.IterSI(M); zzit.Next(); { k, v := zzit.K, zzit.V; body }`.
+// `for zzit, k, v := zzverifrt.IterSI(M), *new(K), *new(V); zzit.Next(); { k, v = zzit.K, zzit.V; body }`
+// (one k and one v per loop, as a range statement has under mxj's language version).
 func (rw *rewriter) mapRange(st *ast.RangeStmt, mt *types.Map) ast.Stmt {
 	rw.rep.MapRanges++
 	itName := "zzit" + strconv.Itoa(rw.rep.MapRanges)
@@ -847,11 +848,28 @@ func (rw *rewriter) mapRange(st *ast.RangeStmt, mt *types.Map) ast.Stmt {
 		lhs, rhs = append(lhs, st.Value), append(rhs, vx)
 	}
 	if len(lhs) > 0 {
-		bind = append(bind, &ast.AssignStmt{Lhs: lhs, Tok: st.Tok, Rhs: rhs})
+		// the range variables are assigned, not re-declared, in every iteration: under the language version
+		// of mxj's go.mod (before 1.22) a range statement has ONE variable per loop, which a closure in the
+		// body captures by reference. With `:=` the variables are declared once, in the init clause below.
+		bind = append(bind, &ast.AssignStmt{Lhs: lhs, Tok: token.ASSIGN, Rhs: rhs})
 		if st.Tok == token.DEFINE {
 			// avoid "declared and not used" when the body never uses a variable
 			for _, l := range lhs {
 				bind = append(bind, &ast.AssignStmt{Lhs: []ast.Expr{ast.NewIdent("_")}, Tok: token.ASSIGN, Rhs: []ast.Expr{l}})
+			}
+			// zzit, k, v := Iter(M), *new(K), *new(V)
+			zero := func(t types.Type) ast.Expr {
+				te, _ := parser.ParseExpr(types.TypeString(t, qual))
+				return &ast.StarExpr{X: &ast.CallExpr{Fun: ast.NewIdent("new"), Args: []ast.Expr{te}}}
+			}
+			as := init.(*ast.AssignStmt)
+			if !isBlank(st.Key) {
+				as.Lhs = append(as.Lhs, st.Key)
+				as.Rhs = append(as.Rhs, zero(mt.Key()))
+			}
+			if !isBlank(st.Value) {
+				as.Lhs = append(as.Lhs, st.Value)
+				as.Rhs = append(as.Rhs, zero(mt.Elem()))
 			}
 		}
 	}
